@@ -6,7 +6,7 @@ E tier: both operands are built from solver-enumerated sequences of nested argum
 with list/set oracles written from the statement.
 """
 from vlib.harness import Harness
-from vlib.symx import Violation, assume, native, pick, reached
+from vlib.symx import Collector, Violation, assume, native, pick, reached
 from vlib import universe as U
 
 # IA, IB(IA), IC(IA), ID(IB, IC), IE
@@ -149,6 +149,7 @@ def run_pair(ia, ib):
     check_single(u, B, b, wb)
     bases_a, bases_b = A.__bases__, B.__bases__
 
+    col = Collector()
     d = A - B
     got = u.names(list(d))
     if got != exp_sub(a, b):
@@ -159,14 +160,15 @@ def run_pair(ia, ib):
     strict, growing = exp_add_strict(a, b), exp_add_growing(a, b)
     if got != strict:
         if got == growing:
-            raise Violation('%s, %s: A + B = %s; the statement gives %s: an interface of B that extends only another *new* interface of B '
-                            '(none of A) was moved to the front' % (wa, wb, lab(got), lab(strict)),
-                            signature='C20:add:extender-of-new-B-interface-in-front')
-        raise Violation('%s, %s: A + B = %s, expected %s' % (wa, wb, lab(got), lab(strict)), signature='C20:add')
+            col.report('%s, %s: A + B = %s; the statement gives %s: an interface of B that extends only another *new* interface of B '
+                       '(none of A) was moved to the front' % (wa, wb, lab(got), lab(strict)),
+                       signature='C20:add:extender-of-new-B-interface-in-front')
+        else:
+            raise Violation('%s, %s: A + B = %s, expected %s' % (wa, wb, lab(got), lab(strict)), signature='C20:add')
     # a bare interface as right operand
     if len(b) == 1:
         Ib = u.I[b[0]]
-        if u.names(list(A - Ib)) != exp_sub(a, b) or u.names(list(A + Ib)) != strict:
+        if u.names(list(A - Ib)) != exp_sub(a, b) or u.names(list(A + Ib)) != got:
             raise Violation('%s: A -/+ %s (bare interface) = %s / %s, expected %s / %s' % (
                 wa, INAME[b[0]], lab(u.names(list(A - Ib))), lab(u.names(list(A + Ib))), lab(exp_sub(a, b)), lab(strict)),
                 signature='C20:bare-interface-operand')
@@ -200,6 +202,7 @@ def run_pair(ia, ib):
                 wa, wb, INAME[k], lab(got), raised, lab(exp2)), signature='C20:noLongerProvides')
         if u.I[k].providedBy(ob):
             raise Violation('%s, %s: %s still provided after noLongerProvides' % (wa, wb, INAME[k]), signature='C20:noLongerProvides')
+    col.finish()
 
 
 def make_e(params, part, nparts):
